@@ -7,8 +7,77 @@
 //!   [`rtt_estimator`] from `connection::verif_comp`
 //! - [`VerifRangeSet`] and [`VerifArrayRangeSet`] from `range_set::verif_comp`
 //! - `Bbr::verif_reseed` is an inherent method defined in `congestion::bbr::verif_comp`
+//! - [`VerifCidQueue`], defined here (`cid_queue` is a crate-level module)
 
 pub use crate::connection::verif_comp::{
     VerifAssembler, VerifDedup, VerifMtuDiscovery, VerifSendBuffer, rtt_estimator,
 };
 pub use crate::range_set::verif_comp::{VerifArrayRangeSet, VerifRangeSet};
+
+use crate::{ConnectionId, ResetToken, cid_queue::CidQueue, frame::NewConnectionId};
+
+/// Wrapper around `cid_queue::CidQueue`
+pub struct VerifCidQueue(CidQueue);
+
+impl VerifCidQueue {
+    /// `CidQueue::LEN`
+    pub const LEN: usize = CidQueue::LEN;
+
+    /// `CidQueue::new`
+    pub fn new(cid: ConnectionId) -> Self {
+        Self(CidQueue::new(cid))
+    }
+
+    /// `CidQueue::insert`: `Ok(Some((retired range, reset token of the new active CID)))`,
+    /// `Ok(None)`, `Err("Retired")` or `Err("ExceedsLimit")`
+    #[allow(clippy::type_complexity)]
+    pub fn insert(
+        &mut self,
+        sequence: u64,
+        retire_prior_to: u64,
+        id: ConnectionId,
+        reset_token: [u8; 16],
+    ) -> Result<Option<(std::ops::Range<u64>, [u8; 16])>, &'static str> {
+        match self.0.insert(NewConnectionId {
+            sequence,
+            retire_prior_to,
+            id,
+            reset_token: ResetToken::from(reset_token),
+        }) {
+            Ok(x) => Ok(x.map(|(r, t)| (r, tok(&t)))),
+            Err(crate::cid_queue::InsertError::Retired) => Err("Retired"),
+            Err(crate::cid_queue::InsertError::ExceedsLimit) => Err("ExceedsLimit"),
+        }
+    }
+
+    /// `CidQueue::next`
+    pub fn advance(&mut self) -> Option<([u8; 16], std::ops::Range<u64>)> {
+        self.0.next().map(|(t, r)| (tok(&t), r))
+    }
+
+    /// `CidQueue::active`
+    pub fn active(&self) -> ConnectionId {
+        self.0.active()
+    }
+
+    /// `CidQueue::active_seq`
+    pub fn active_seq(&self) -> u64 {
+        self.0.active_seq()
+    }
+
+    /// Ring slots in storage order (connection ID bytes) and the cursor
+    pub fn slots(&self) -> (Vec<Option<Vec<u8>>>, usize) {
+        self.0.verif_slots()
+    }
+
+    /// Complete state
+    pub fn render(&self) -> String {
+        format!("{:?}", self.0)
+    }
+}
+
+fn tok(t: &ResetToken) -> [u8; 16] {
+    let mut out = [0; 16];
+    out.copy_from_slice(t);
+    out
+}
